@@ -92,12 +92,14 @@ extern "C" void harness(void)
   if (!eligible)
   {
     VCLAIM(5, vf_nreports == 1 && vf_first.fatal, "C05.ineligible_exactly_one_fatal_report");
+    VCLAIM(1, vf_nreports == 1 && vf_first.fatal, "C01.out_of_sequence_call_is_exactly_one_fatal_report");
     VCLAIM(15, vf_nreports >= 1 && vf_first.fatal, "C15.sequence_violation_from_call_is_fatal");
     VCLAIM(15, vf_first.line == cm[k]->loc.line && vf_first.file == cm[k]->loc.file, "C15.sequence_report_carries_expectation_location");
     VCLAIM(16, vf_nok == 0, "C16.no_ok_report_for_out_of_sequence_call");
     for (int i = 0; i < 3; ++i)
     {
       VCLAIM(5, cm[i]->sequences->get_calls() == c[i], "C05.ineligible_no_count_change");
+      VCLAIM(1, cm[i]->sequences->get_calls() == c[i], "C01.rejected_call_changes_no_count");
       for (int S = 0; S < 2; ++S)
         if (MB[i] & (1 << S)) VCLAIM(5, linked_in(cm[i], MB[i], MB[i] == 2 ? 0 : S) == listed[i][S], "C05.ineligible_no_sequence_change");
     }
